@@ -255,6 +255,11 @@ pub fn run(ctx: &Ctx) -> i32 {
         let e = f.encode_full(false);
         add(n, e.bytes, e.end_of_last_frame);
     }
+    {
+        // every payload kind larger than 64 KiB: large chunks are read in many read() calls
+        let e = gen::big().encode_full(false);
+        add("big", e.bytes, e.end_of_last_frame);
+    }
     for n in ["basic-16x16", "tilemap_indexed", "user_data"] {
         if let Ok(b) = std::fs::read(format!("/repo/tests/data/{}.aseprite", n)) {
             let end = mc_core::ase::walk_sizes(&b).unwrap_or(b.len());
@@ -265,7 +270,7 @@ pub fn run(ctx: &Ctx) -> i32 {
     // (1) deviation-bounded schedules
     let bound = if thorough { 3 } else { 2 };
     for (ti, t) in targets.iter().enumerate() {
-        let b = if ti < 3 { bound } else { bound - 1 };
+        let b = if ti < 3 { bound } else if t.name == "big" { 1 } else { bound - 1 };
         let fam = format!("schedules-{}-d{}", t.name, b);
         if !ctx.wants_family(&fam) {
             continue;
@@ -387,9 +392,12 @@ pub fn run(ctx: &Ctx) -> i32 {
     if ctx.wants_family("error-at-offset") {
         let mut n = 0u64;
         for t in &targets {
-            let modes: Vec<(usize, usize)> = vec![(usize::MAX, 0), (1, 0), (usize::MAX, 5), (3, 4)];
-            n += t.end as u64 * FAIL_KINDS.len() as u64 * modes.len() as u64;
-            (0..t.end).into_par_iter().for_each(|p| {
+            // (max bytes per read, wrapper); the 400 KB target uses larger pieces than 1 and 3 bytes
+            let modes: Vec<(usize, usize)> = if t.end > 100_000 { vec![(usize::MAX, 0), (4093, 0), (usize::MAX, 5), (997, 4)] } else { vec![(usize::MAX, 0), (1, 0), (usize::MAX, 5), (3, 4)] };
+            n += (if t.end > 100_000 { (0..t.end).filter(|p| p % 4096 < 20 || p % 4096 > 4076 || p % 509 == 0).count() } else { t.end }) as u64 * FAIL_KINDS.len() as u64 * modes.len() as u64;
+            // the 400 KB target: every offset within 40 bytes of a 4 KiB boundary and every 509th byte
+            let offsets: Vec<usize> = if t.end > 100_000 { (0..t.end).filter(|p| p % 4096 < 20 || p % 4096 > 4076 || p % 509 == 0).collect() } else { (0..t.end).collect() };
+            offsets.into_par_iter().for_each(|p| {
                 for k in 0..FAIL_KINDS.len() as u8 {
                     for (mi, (m, w)) in modes.iter().enumerate() {
                         let case = || format!("{} error {:?} at offset {} delivery#{}", t.name, FAIL_KINDS[k as usize], p, mi);
